@@ -68,7 +68,8 @@ def gaps_arm(ctx):
     ctx.sample(dict(kind='ranges.Gaps call (random)', **events[-1]))
 
     # 3. binding demonstration: damage one recorded output, TLC must reject exactly that line
-    good = [i for i, e in enumerate(events[:len(cases)]) if e['gaps'] and e['ranges'] and (i + 1) not in {l for l, _ in rej}]
+    rejl = {l for l, _ in rej}
+    good = [i for i, e in enumerate(events[:len(cases)]) if e['gaps'] and e['ranges'] and (i + 1) not in rejl]
     if not good:
         raise Inconclusive('no event available for binding demo')
     k = good[len(good) // 2]
